@@ -23,15 +23,19 @@ func ZZ_C02_deliveries() {
 	gotH, gotD := []bool{false, false}, []bool{false, false}
 	// where the four blobs are on the DA layer (any heights not below the
 	// height the node's persisted scan position)
-	scan0 := zzsym.U64("scan0")
-	zzsym.Assume(scan0 < 1<<40)
+	scan0 := uint64(3)
+	hAt, dAt := []uint64{5, 6}, []uint64{9, 8}
+	if zzC02SymbolicDA {
+		scan0 = zzsym.U64("scan0")
+		zzsym.Assume(scan0 < 1<<40)
+		hAt = []uint64{zzsym.U64("h1at"), zzsym.U64("h2at")}
+		dAt = []uint64{zzsym.U64("d1at"), zzsym.U64("d2at")}
+		for k := 0; k < 2; k++ {
+			zzsym.Assume(hAt[k] >= scan0 && hAt[k] < 1<<41 && dAt[k] >= scan0 && dAt[k] < 1<<41)
+		}
+	}
 	m.lastState.DAHeight = scan0
 	e.store.state.DAHeight = scan0
-	hAt := []uint64{zzsym.U64("h1at"), zzsym.U64("h2at")}
-	dAt := []uint64{zzsym.U64("d1at"), zzsym.U64("d2at")}
-	for k := 0; k < 2; k++ {
-		zzsym.Assume(hAt[k] >= scan0 && hAt[k] < 1<<41 && dAt[k] >= scan0 && dAt[k] < 1<<41)
-	}
 	nh := zzsym.Pick("nheaders", zzC02Len+1)
 	for i := 0; i < nh; i++ {
 		k := zzsym.Pick("hdr", 2)
